@@ -31,6 +31,6 @@ def plan(plan, tier, seed):
         plan.anchor_errors.append(("C13.verus.*", str(e)))
     plan.undecided_clauses += [
         "C13: which spellings the grammar accepts and how the parser splits them into tokens (e.g. `1e23` reads as `1` with kind `e23`, `_` inside based literals) — parser code, out of reach",
-        "C13: suffixed / annotated literals that do not fit their kind (typed_literal = integer() followed by the C12 conversion; `-128<i8>` negates after clamping)",
+        "C13: for suffixed / annotated literals the conversion rule itself is C12's subject (typed_literal = the literal followed by that conversion: C13.verus.typed_literal.*; `-128<i8>` negates after clamping)",
         "C13: that std's parsers and num_rational meet their documented contracts (assumed)"]
     plan.level = "proof"
